@@ -32,8 +32,8 @@ Definition dump_sx (s : store) : sx :=
   SL (map (fun kv => SL [SB (fst kv); SB (snd kv)]) s).
 
 (* the operations of one session: (get results in order, final session) *)
-Fixpoint run_ops (sc : scheme) (s : store) (ss : sess keccak256) (ops : list sx) (gets : list sx)
-  : option (tres (list sx * sess keccak256)) :=
+Fixpoint run_ops (sc : scheme) (s : store) (ss : sess) (ops : list sx) (gets : list sx)
+  : option (tres (list sx * sess)) :=
   match ops with
   | [] => Some (TOk (rev gets, ss))
   | SL [SI 0%Z; SB k; SB v] :: r =>
